@@ -559,12 +559,17 @@ def e_notify_unwrap(ctx, s):
     ad = body(ctx, "add_dependency")
     if not ad:
         return None
-    ent = [(bb, t) for bb, t in ad.calls() if C.callee_name(t) == "std::collections::HashMap::<K, V, S, A>::entry"
-           and has_field(C.trace(ad, t["args"][0]), "out_edge_counts")]
+    # where the counter entry is known to exist afterwards: `entry(depender)`, `insert(depender, n)`, or the Some edge of a lookup
+    ent = [(bb, t) for bb, t in ad.calls() if C.callee_name(t) in ("std::collections::HashMap::<K, V, S, A>::entry",
+                                                                   "std::collections::HashMap::<K, V, S, A>::insert")
+           and has_field(C.trace(ad, t["args"][0], through_fields=True), "out_edge_counts")]
+    found = enum_edges(ad, lib, "std::option::Option", lambda vs: vs == {"Some"}, src_pred=lambda c: any(
+        l.kind == "call" and C.callee_name(l.data) in ("std::collections::HashMap::<K, V, S, A>::get_mut", "std::collections::HashMap::<K, V, S, A>::get")
+        and has_field(C.trace(ad, l.data["args"][0], through_fields=True), "out_edge_counts") for l in c.src))
     ins = [(bb, t) for bb, t in ad.calls() if C.callee_name(t) == "std::collections::HashSet::<T, S, A>::insert"]
     if not ent or not ins:
         return None
-    cut = set()
+    cut = set(found)
     for bb, t in ent:
         cut |= {eid for eid, s_, lab in ad.edges(bb)}
     for bb, t in ins:
